@@ -79,7 +79,7 @@ FlagsOK(vs) ==
 
 E == Trace[l]
 IsEv(n) == E.ev = n
-CallOf(c) == MkCall(c.op, c.b, c.k, c.blob, c.opt, c.cond, c.exp, c.status)
+CallOf(c) == [MkCall(c.op, c.b, c.k, c.blob, c.opt, c.cond, c.exp, c.status) EXCEPT !.u = c.u]
 ViewsMatch(views, St) == LViews(views) = MViews(St) /\ FlagsOK(views)
 
 Report(what, c) ==
@@ -168,6 +168,8 @@ TReturn ==
          r == cl[c].res IN
      /\ cl[c].pc = "idle" /\ E.op = call.op
      /\ IF IsRead(call) THEN ReadAgrees(call, r) ELSE E.err = r.err
+     /\ (r.err = "" /\ r.v # <<>> /\ call.op = "CreateUpload") => E.uid = r.v[1].uid
+     /\ (r.err = "" /\ r.v # <<>> /\ call.op = "CompleteUpload") => E.vid = r.v[1].vid
      /\ (r.err = "" /\ r.v # <<>> /\ call.op = "PutObject") => E.vid = r.v[1].vid
      /\ (r.err = "" /\ r.v # <<>> /\ call.op = "DeleteObject") => (E.vid = r.v[1].vid /\ E.dm = r.v[1].dm)
   /\ due' = due \ {E.p}
@@ -245,6 +247,8 @@ TFCall ==
             /\ (a.r.err = "" /\ call.op = "PutObject" /\ (call.cond # "none" \/ virt.bver[call.b] = "Enabled")) => E.vid = a.r.vid
             /\ (a.r.err = "" /\ call.op = "DeleteObject" /\ (call.cond # "none" \/ virt.bver[call.b] \in {"Enabled", "Suspended"}))
                   => (E.vid = a.r.vid /\ E.dm = a.r.dm)
+            /\ (a.r.err = "" /\ call.op = "CreateUpload") => E.uid = a.r.uid
+            /\ (a.r.err = "" /\ call.op = "CompleteUpload") => E.vid = a.r.vid
             /\ virt' = a.s
             /\ accepted' = IF a.r.err = "" THEN Append(accepted, [call |-> call, seq |-> 0]) ELSE accepted
   /\ UNCHANGED <<inner, queue, nseq, cl, wk, cnt, taken, due, prog>> /\ l' = l + 1
